@@ -56,6 +56,16 @@ CHECKS = {
         "numeric value are not judged; the config-server door is exercised by C14/C15's driver.",
         "DESIGN.md 3/C06",
     ),
+    "C10": (
+        "exploration",
+        "round-trip property: minimal-config writer (5 variants) -> load into a fresh instance -> compare every value (Hypothesis)",
+        "Generated trees x histories reaching a configuration; write_min_config with labels x normalize_unset and kconfgen's savedefconfig "
+        "writer; a fresh instance loading the minimal file must reproduce every value; labelled/unlabelled files carry the same assignment "
+        "lines. Exploration with a round-trip oracle; the generator deliberately sets options to their plain default while select / imply / "
+        "set / set default are active.",
+        "Trusted: nothing beyond the public API. Bounds: <=14 options, <=12 operations plus targeted assignments.",
+        "DESIGN.md 3/C10",
+    ),
 }
 
 NOT_YET = {}
